@@ -323,7 +323,9 @@ def _r5(chk: Check, R5: str, rootq: str) -> None:
             if isinstance(n, ast.AugAssign) and isinstance(n.target, ast.Attribute) and n.target.attr == 'ops_evaluated':
                 holders.append(q)
             elif isinstance(n, ast.Assign) and any(isinstance(t, ast.Attribute) and t.attr == 'ops_evaluated' for t in n.targets) \
-                    and any(isinstance(x, ast.Attribute) and x.attr == 'ops_evaluated' and isinstance(x.ctx, ast.Load) for x in ast.walk(n.value)):
+                    and any(isinstance(x, ast.Attribute) and x.attr == 'ops_evaluated' and isinstance(x.ctx, ast.Load) for x in ast.walk(fi.node)) \
+                    and fi.qual.rsplit('.', 1)[-1] not in ('__init__', '__post_init__', '__new__'):
+                # new = x.ops + 1; x.ops = new  (the counter is read and written back in the same function)
                 holders.append(q)
     if rootq in holders or not holders:
         charge_q = rootq
